@@ -33,6 +33,15 @@ func c13YAML(replicas int) string {
 	return b.String()
 }
 
+// c13RefYAML is the configuration of a scenario family with the given number of replicas.
+func c13RefYAML(wbeh string, replicas int) string {
+	y := c13YAML(replicas)
+	if wbeh == "backoff" {
+		y = strings.Replace(y, `restart: "no"`, "restart: \"always\"\n      backoff_seconds: 5", 1)
+	}
+	return y
+}
+
 type c13Obs struct {
 	Call     string
 	N        int
@@ -106,7 +115,7 @@ func c13Scenarios(tier string) []*Scenario {
 			}
 		}
 	}
-	for _, wbeh := range []string{"daemon", "done", "pending"} {
+	for _, wbeh := range []string{"daemon", "done", "pending", "released", "backoff"} {
 		for _, init := range []int{1, 2} {
 			for _, h := range hist {
 				h := h
@@ -124,6 +133,15 @@ func c13Scenarios(tier string) []*Scenario {
 					sc.Procs["w"] = &ProcScript{Launches: exits(0)}
 				case "pending": // the replicas are still waiting for d
 					sc.Procs["d"] = &ProcScript{}
+				case "released": // the replicas wait for d, which exits once every request has been served
+					nreq := len(h)
+					sc.Procs["d"] = &ProcScript{Launches: exits(0), Hold: func(w *World, pc int) bool {
+						obs, _ := w.Extra["c13"].([]*c13Obs)
+						return len(obs) < nreq
+					}}
+				case "backoff": // every replica has exited and waits out its restart back-off when the request arrives
+					sc.YAML = c13RefYAML(wbeh, init)
+					sc.Procs["w"] = &ProcScript{Launches: [][]Action{{Exit(1)}, {}}}
 				}
 				init, wbeh := init, wbeh
 				ready := func(w *World) bool {
@@ -140,8 +158,15 @@ func c13Scenarios(tier string) []*Scenario {
 					switch wbeh {
 					case "done":
 						return w.launches["w#0"] > 0 && w.launches[fmt.Sprintf("w#%d", init-1)] > 0 && nw == 0 && nx == 1
-					case "pending":
+					case "pending", "released":
 						return nx == 1 && w.launches["d#0"] > 0
+					case "backoff":
+						for i := 0; i < init; i++ {
+							if w.launches[fmt.Sprintf("w#%d", i)] != 1 {
+								return false
+							}
+						}
+						return nw == 0 && nx == 1
 					}
 					return nw == init && nx == 1
 				}
@@ -234,7 +259,7 @@ func c13Check(w *World, init int, wbeh string) []Violation {
 		prev := cur
 		cur = o.N
 		// reference: a fresh load with replicas: n
-		ref, err := w.LoadYAML(fmt.Sprintf("ref-%d.yaml", o.N), c13YAML(o.N))
+		ref, err := w.LoadYAML(fmt.Sprintf("ref-%d.yaml", o.N), c13RefYAML(wbeh, o.N))
 		if err != nil {
 			vs = append(vs, viol("C13", "harness", "reference load failed: %v", err))
 			continue
@@ -293,7 +318,7 @@ func c13Check(w *World, init int, wbeh string) []Violation {
 		}
 	}
 	// at the end: removed replicas ended, added ones were launched with their own number
-	if len(obs) > 0 && w.Outcome != "deadlock" && wbeh == "daemon" {
+	if len(obs) > 0 && w.Outcome != "deadlock" && (wbeh == "daemon" || wbeh == "released" || wbeh == "backoff") {
 		alive := map[int]bool{}
 		for _, f := range w.procs {
 			if f.Name == "w" && f.started && (!f.exited || f.inCleanup) {
